@@ -73,12 +73,16 @@ def check(cx):
     cside = [(e, x) for e, x in effs if (x['op'] == 'add_user' and x['place'] == chan(C) and x['args'][:1] == [CONN_NICK]) or
              (x['op'] == 'insert' and x['place'] == CHANNELS and x['args'][:1] == [C])]
     r2.instance('JOIN: user-side insert <=> channel-side insert/create')
-    if len(uside) != 1 or len(cside) != 2:
-        r2.violation('process_join|pairing-sites', 'JOIN does not have one user-side insert and the two channel-side alternatives', loc=fj)
+    # the same insert may be written once before the branch or once in each branch
+    kinds = {x['op'] for _, x in cside}
+    if not uside or kinds != {'add_user', 'insert'}:
+        r2.violation('process_join|pairing-sites', 'JOIN does not have a user-side insert and the two channel-side alternatives '
+                     '(enter an existing channel / create one)', loc=fj)
     else:
-        ok, m = equivalent(uside[0][0].pc, Or(*[e.pc for e, _ in cside]))
-        excl = sat(And(cside[0][0].pc, cside[1][0].pc)) is None
-        same_guard = all(set(uside[0][0].guards) == set(e.guards) and any(g[0] == 'write' for g in e.guards) for e, _ in cside)
+        ok, m = equivalent(Or(*[e.pc for e, _ in uside]), Or(*[e.pc for e, _ in cside]))
+        excl = all(sat(And(a[0].pc, b[0].pc)) is None for i, a in enumerate(cside) for b in cside[i + 1:]) and \
+            all(sat(And(a[0].pc, b[0].pc)) is None for i, a in enumerate(uside) for b in uside[i + 1:])
+        same_guard = all(set(uside[0][0].guards) == set(e.guards) and any(g[0] == 'write' for g in e.guards) for e, _ in cside + uside)
         if not ok or not excl or not same_guard:
             r2.violation('process_join|pairing', 'JOIN can write one side of the membership without the other (or outside one write guard): %s'
                          % (m,), loc=cx.loc(uside[0][0].node))
